@@ -75,6 +75,8 @@ def run_cases(seed, tier, on_case):
                 except Exception:  # noqa
                     trig = None
                 r = O.impl_encode(obj, v, trig)
+                if r.ok:
+                    r.msg = O.impl_decode(obj, r.pdu)           # "decoding reads the same bits back" (kept in the free slot `msg`)
                 on_case(idx, family, c, v, trig, r)
                 idx += 1
     return idx
